@@ -621,11 +621,11 @@ def run_multi(case, tmp):
         if keys is not None:
             kwk["keys"] = keys
             cl.add("multi:keys")
-        differential(lambda: da.read_nc(list(paths), names, axis="stk", **kwk), lambda: da.stack_ds(list(singles), axis="stk", keys=exp_keys, **kw), what, sig, compare=same_dataset)
+        differential(lambda: da.read_nc(list(paths), names, axis="stk", **kwk), lambda: da.stack_ds(list(singles), axis="stk", keys=exp_keys, **kw), what, sig, compare=same_dataset_ordered)
         per_variable = lambda k: da.stack([s_[k] for s_ in singles], axis="stk", keys=exp_keys, **kw)
         cl.add("multi:stack")
     else:
-        differential(lambda: da.read_nc(list(paths), names, axis=case["cdim"], **kw), lambda: da.concatenate_ds(list(singles), axis=case["cdim"], **kw), what, sig, compare=same_dataset)
+        differential(lambda: da.read_nc(list(paths), names, axis=case["cdim"], **kw), lambda: da.concatenate_ds(list(singles), axis=case["cdim"], **kw), what, sig, compare=same_dataset_ordered)
         per_variable = lambda k: da.concatenate([s_[k] for s_ in singles], axis=case["cdim"], **kw)
         cl.add("multi:concatenate")
     # the statement's own wording: "equals reading each file and stacking / concatenating the results" - variable by variable with the
